@@ -948,6 +948,20 @@ def table_cases(ctx):
     add("-version", "main", "mage", ["-version"], 0, scen(fa=fargs(version=True)))
     add("-version -l", "main", "mage", ["-version", "-l"], 0, scen(fa=fargs(version=True)))
     add("-clean", "main", "mage", ["-clean"], 0, scen(fa=fargs(clean=True)), slot="clean")
+    # --- the commands that run no target x an environmental failure: not 0, message on stderr (needs chattr +i: we are root)
+    if ctx.coverage.get("immutable_files_possible"):
+        add("-clean, a cache entry cannot be removed", "main", "mage", ["-clean"], "nonzero", scen(fa=fargs(clean=True), clean_err=True), slot="clean2",
+            special="clean-stuck", tokens=["Error"])
+        add("-clean in hash mode, a cache entry cannot be removed", "main", "hash", ["-clean"], "nonzero", scen(fa=fargs(clean=True, hashfast=True), clean_err=True),
+            slot="clean3", special="clean-stuck", tokens=["Error"])
+        add("-init, the directory cannot be written", "fresh", "mage", ["-init"], "nonzero", scen(fa=fargs(init=True), init_err=True), slot="init2",
+            special="init-immutable", tokens=["Error:"])
+        add("-compile, the output path cannot be written", "main", "mage", ["-compile", "../immutable-out/bin"], "nonzero",
+            scen(fa=fargs(compile=True), bd=build(compile_err=True)), slot="compile2", special="compile-immutable", tokens=["Error"])
+    add("-h target, the magefile does not parse", "syntax", "mage", ["-h", "t1"], 1, scen(fa=fargs(help=True, nargs=1), bd=build(parse_err=True)), tokens=["Error parsing magefiles"])
+    add("-h target, the magefile does not compile", "type", "mage", ["-h", "t1"], 1, scen(fa=fargs(help=True, nargs=1), bd=build(compile_err=True)), tokens=["error compiling magefiles"])
+    add("-l, the magefile does not compile", "type", "mage", ["-l"], 1, scen(fa=fargs(), bd=build(compile_err=True)), tokens=["error compiling magefiles"])
+    add("-l, no magefiles", "empty", "hash", ["-l"], 1, scen(fa=fargs(hashfast=True), bd=build(nofiles=True)), tokens=["No .go files"])
     add("-init in a fresh directory", "fresh", "mage", ["-init"], 0, scen(fa=fargs(init=True)), special="init-fresh")
     add("-init next to an existing magefile.go", "fresh", "mage", ["-init"], 1, scen(fa=fargs(init=True), init_err=True), special="init-existing", tokens=["Error:"])
     add("-init -clean (the switch takes -init)", "fresh", "mage", ["-init", "-clean"], 0, scen(fa=fargs(init=True, clean=True)), special="init-fresh2", oracle=False)
@@ -1059,6 +1073,27 @@ class Slot:
             return bins[self.kind]
 
 
+def chattr(flag, path):
+    return subprocess.run(["chattr", flag, path], stdout=subprocess.PIPE, stderr=subprocess.PIPE).returncode == 0
+
+
+def can_immutable(tmp):
+    """can a file be made undeletable for root here (chattr +i on the file system of the run's temp directory)?"""
+    p = os.path.join(tmp, "immutable-probe")
+    open(p, "w").close()
+    ok = chattr("+i", p)
+    if ok:
+        try:
+            os.remove(p)
+            ok = False              # the flag did not stop the removal
+        except OSError:
+            pass
+        chattr("-i", p)
+    if os.path.exists(p):
+        os.remove(p)
+    return ok
+
+
 def run_proc(argv, cwd, env, devfull=False, timeout=180):
     out_f = open("/dev/full", "wb") if devfull else subprocess.PIPE
     try:
@@ -1092,7 +1127,7 @@ def exec_case(slot, c):
         e = m.env(env, cache=slot.cache_mage)
     else:
         cache = slot.cache_mage if route == "mage" else slot.cache_hash
-        if c.get("slot") == "clean":
+        if c.get("slot") in ("clean", "clean2", "clean3"):
             cache = os.path.join(m.ctx.tmp, "cache-clean-" + slot.name)
             os.makedirs(cache, exist_ok=True)
             open(os.path.join(cache, "stale"), "w").close()
@@ -1130,7 +1165,37 @@ def exec_case(slot, c):
                 os.remove(p)
         argv = [m.bin] + list(c["args"])
         e = m.env(env, cache=cache)
-    rc, out, err = run_proc(argv, slot.dir, e, devfull=(special == "devfull"))
+    locked = []
+    try:
+        if special == "clean-stuck":
+            stuck = os.path.join(cache, "stuck")
+            open(stuck, "w").close()
+            open(os.path.join(cache, "zz-after"), "w").close()
+            if chattr("+i", stuck):
+                locked.append(stuck)
+        if special == "init-immutable":
+            p = os.path.join(slot.dir, "magefile.go")
+            if os.path.exists(p):
+                os.remove(p)
+            if chattr("+i", slot.dir):
+                locked.append(slot.dir)
+        if special == "compile-immutable":
+            d = os.path.normpath(os.path.join(slot.dir, os.path.dirname(c["args"][-1])))
+            os.makedirs(d, exist_ok=True)
+            if chattr("+i", d):
+                locked.append(d)
+        rc, out, err = run_proc(argv, slot.dir, e, devfull=(special == "devfull"))
+        if special == "clean-stuck":
+            note["cache_left"] = sorted(os.listdir(cache))
+        if special == "compile-immutable":
+            note["out_exists"] = os.path.exists(os.path.normpath(os.path.join(slot.dir, c["args"][-1])))
+        if special == "init-immutable":
+            note["init_file"] = os.path.exists(os.path.join(slot.dir, "magefile.go"))
+    finally:
+        for p in locked:
+            chattr("-i", p)
+    if special in ("clean-stuck", "init-immutable", "compile-immutable") and not locked:
+        note["not_exercised"] = "chattr +i failed"
     if special == "history":
         # what the go tool answered, as mage reports it (every one of them means "cannot be built")
         cls = projlib.stderr_class(err)
@@ -1180,6 +1245,10 @@ def judge(c, ob):
     n = ob["note"]
     if c.get("special") == "compile-out" and not n.get("out_exists"):
         bad.append(("compile-out", "-compile exited %d but the output file does not exist" % ob["rc"]))
+    if c.get("special") == "compile-immutable" and n.get("out_exists"):
+        bad.append(("compile-out", "-compile into an unwritable directory left an output file"))
+    if c.get("special") == "clean-stuck" and ob["rc"] == 0 and "stuck" in (n.get("cache_left") or []):
+        bad.append(("clean", "-clean exited 0 but the cache still holds %s" % n.get("cache_left")))
     if c.get("special") == "no-out" and n.get("out_exists"):
         bad.append(("compile-out", "-compile failed but left an output file"))
     if c.get("special") in ("init-fresh",) and not n.get("init_file"):
@@ -1221,7 +1290,23 @@ def run_cases(ctx, m, cases):
     return done
 
 
+def load_side_findings(ctx):
+    """candidate findings of this check that are not (yet) in /verif/known_findings.json"""
+    p = os.path.join(os.path.dirname(os.path.abspath(__file__)), "c05_known.json")
+    if not os.path.exists(p):
+        return
+    have = set(k.get("id") for k in ctx.known_findings)
+    for k in json.load(open(p)).get("findings", []):
+        if k.get("id") not in have:
+            ctx.known_findings.append(k)
+
+
 def run(ctx):
+    load_side_findings(ctx)
+    ctx.coverage["immutable_files_possible"] = can_immutable(ctx.tmp)
+    if not ctx.coverage["immutable_files_possible"]:
+        ctx.notes.append("chattr +i is not possible on the temp file system: the -clean / -init / -compile cases with an "
+                         "undeletable entry / unwritable directory are not exercised in this run")
     ctx.prove(["Props/C05.vo", "Run/eval_C05.vo"], extra_props=["Compose_C15_C05", "Compose_C04_C05"])   # + compositions C15 <-> C05, C04 => C05 (the dispatch loop is the mention segmentation)
     ctx.trusted_base += [
         "checks/c05.py: the generated magefile (act: failure palette selected through VERIF_SCEN), the scenario generator, the mapping "
@@ -1263,7 +1348,8 @@ def run(ctx):
                 continue
             ctx.violation({"kind": "oracle", "clause": clause, "route": c["route"], "case_kind": c["kind"],
                            "shape": ("bad-flag" if c["scen"]["prog"]["flags"] == "bad" and c["scen"]["fargs"]["parse"] == "ok" else
-                                     "list-unwritable" if (c.get("special") == "devfull" and c["scen"]["prog"]["list"]) else c.get("name") or c.get("fail")),
+                                     "list-unwritable" if (c.get("special") == "devfull" and c["scen"]["prog"]["list"]) else
+                                     "clean-undeletable" if c.get("special") == "clean-stuck" else c.get("name") or c.get("fail")),
                            "text": text, "argv": c["args"], "env": c.get("env") or {}, "VERIF_SCEN": spec_string({k: tuple(v) for k, v in (c.get("behs") or {}).items()})},
                           case=case_public(c), extra={"observed": ob})
         if ob["leftovers"] and c["route"] != "compiled" and "-keep" not in c["args"]:
